@@ -373,21 +373,26 @@ def assemble (src : XArr) (dst : GeoBox) (dstNodata : Bool) : Res XArr :=
           .ok ⟨replaceDims src.dims sd (dimsOf dst.crs), kept ++ cs, some "spatial_ref", attrs⟩
     | _, _ => .error .valueError
 
-/-- `_xr_reproject_ds` as repaired: every data variable with a geobox is reprojected, the
-others pass through with their CRS coordinates stripped; Dataset attrs are pruned.
+/-- `_maybe_reproject` inside `_xr_reproject_ds` (700-711): a data variable with a geobox is
+reprojected to the (already computed) destination, any other passes through with its located
+CRS coordinates stripped. -/
+def reprojectVar (dst : GeoBox) (nv : String × XArr) : Res (String × XArr) :=
+  match recover nv.2 with
+  | .error e => Except.error e
+  | .ok .nothing =>
+    -- pass-through: drop located CRS coordinates
+    let strip := match nv.2.gridMapping with
+      | some g => [g]
+      | none => nv.2.coords.filterMap fun (kc : String × Coord) => match kc with | (k, Coord.crs _) => some k | _ => none
+    Except.ok (nv.1, { nv.2 with coords := nv.2.coords.filter (fun kc => !strip.contains kc.1) })
+  | .ok _ => (assemble nv.2 dst false).map (fun o => (nv.1, o))
+
+/-- `_xr_reproject_ds` as repaired (38c4bb2): the output Dataset is assembled directly from the
+per-variable results (no `Dataset.map`); Dataset attrs are pruned.
 Variables are `(name, array)`; the Dataset itself is `(attrs, variables)`. -/
 def assembleDs (attrs : List String) (vars : List (String × XArr)) (dst : GeoBox) :
     Res (List String × List (String × XArr)) := do
-  let out ← vars.mapM fun (nm, v) =>
-    match recover v with
-    | .error e => Except.error e
-    | .ok .nothing =>
-      -- pass-through: drop located CRS coordinates
-      let strip := match v.gridMapping with
-        | some g => [g]
-        | none => v.coords.filterMap fun (kc : String × Coord) => match kc with | (k, Coord.crs _) => some k | _ => none
-      Except.ok (nm, { v with coords := v.coords.filter (fun kc => !strip.contains kc.1) })
-    | .ok _ => (assemble v dst false).map (fun o => (nm, o))
+  let out ← vars.mapM (reprojectVar dst)
   return (attrs.filter (fun k => !spatialAttributes.contains k), out)
 
 /-- The Dataset seen as one object by `_locate_geo_info(ds)`: all dimensions and the merged
